@@ -47,7 +47,14 @@ TRUSTED = ["operator contract of mate/mutate (C02/C09/C10/C11) and clone = deepc
            "run with the results read off the trace",
            "CMA-ES strategy update (numpy linear algebra) is outside the model: only the order in which update() leaves the list "
            "and the ask/tell protocol (which objects generate() handed out, which objects update() received, evaluated) are modelled",
-           "hall of fame similarity = equality of the genotype (the default operator.eq on list / tree individuals)"]
+           "hall of fame similarity = equality of the genotype (the default operator.eq on list / tree individuals)",
+           "translator tie: harness/py2lean_c03.py (its docstring = the rendering rules: the packaged-loop sub-language of Python, state-passing "
+           "over heap / operator state / ghost records / per-generation decision tape) and its prelude lean/DeapModel/Core/GenPreludeC03.lean, "
+           "on top of C02's translator harness/py2lean_c02.py + Core/GenPreludeC02.lean for the called varAnd / varOr; the parameter types assumed "
+           "in harness/props/c03_translate.py (LOOP_SIG); stats / verbose / logbook header are not rendered (they may occur only in three skipped "
+           "idioms); the definitions of eaSimple / eaMuPlusLambda / eaMuCommaLambda are regenerated from $DEAP_REPO's deap/algorithms.py on every "
+           "run and kernel-checked equal to Loops.eaSimple / eaMuPlusLambda / eaMuCommaLambda (lean/DeapModel/GenEq/C03.lean.tmpl: "
+           "Gen.<f>_eq_canon / _eq_model; lemmas Lemmas/C03Gen.lean); eaGenerateUpdate and gp.harm are outside the sub-language (listed as refused)"]
 ASSUMPTIONS = ["toolbox.evaluate is a pure function of the genotype returning a non-empty tuple",
                "individuals that come with a fitness carry the value evaluate gives for them (pre-evaluated truthfully)",
                "the initial population consists of distinct objects (the same unevaluated object listed twice would be evaluated "
@@ -60,6 +67,28 @@ EXPLANATION = ("Theorems C03.* are proved for the abstract generational machine 
                "model, list objects, ask/tell state): hof_best_ge_logged, plus_monotone_selBest, population_updated_in_place, "
                "generate_update_protocol; the correspondence replays recorded runs of the real loops through both machines, "
                "HARM-GP's acceptance test included.")
+
+
+def translate(repo):
+    """translator tie (lib._translated_obligations): Lean definitions of eaSimple / eaMuPlusLambda / eaMuCommaLambda regenerated from
+    `repo`'s current deap/algorithms.py (harness/py2lean_c03.py; the called varAnd / varOr by C02's harness/py2lean_c02.py) + the
+    committed theorems `Gen.<f>` = model of lean/DeapModel/GenEq/C03.lean.tmpl"""
+    import json
+    import os
+    import lib
+    from props import c03_translate
+    tr = c03_translate.translate(repo)
+    try:
+        os.makedirs(os.path.join(lib.OUT, "evidence"), exist_ok=True)
+        with open(os.path.join(lib.OUT, "evidence", "C03.translated.json"), "w") as fh:
+            json.dump({"definitions": len(tr["definitions"]), "theorems": len(tr["theorems"]), "refused": len(tr["refused"]),
+                       "problems": tr["problems"], "callee_definitions": tr.get("callee_definitions", []),
+                       "functions": [dict(file=f, name=n, status=st, detail=d) for f, n, st, d in tr["table"]],
+                       "theorem_names": tr["theorems"]}, fh, indent=1)
+            fh.write("\n")
+    except OSError:
+        pass
+    return tr
 
 
 # ------------------------------------------------------------------------------------------
